@@ -354,6 +354,39 @@ def run_threads(res, mask, hist):
         install_virtual_loop()
 
 
+EXPR_TAIL = ("s1 and g2", "s1 or g2", "(s1 or s3) and g2", "s1 and s3 and g2", "not s1 and g2",
+             "s1 ^ g2", "!s1 v g2", "s1 and (s3 or g2)")
+
+
+def fam_exprtail(tier):
+    """Boolean guard expressions whose plain operands come first and whose *last evaluated*
+    operand is a coroutine guard: the combinators hand the pending coroutine through and it is
+    awaited like any other guard (this is not the known finding, which is about coroutine
+    operands that are not in tail position, negated or compared)."""
+    return [("exprtail", expr, grp) for expr in EXPR_TAIL for grp in ("cond", "unless")]
+
+
+def run_exprtail(res, expr, grp, tier, only_driver=None):
+    m = M(states=(S("A", initial=True), S("B")),
+          trans=(T("A", "B", ("go",), **{grp: (expr,)}), T("A", "A", ("go",)),
+                 T("B", "A", ("back",))),
+          provided=(("sm", "s1", ""), ("sm", "s3", ""), ("sm", "g2", "a"),
+                    ("sm", "after_transition", "a")),
+          awaits=(("sm", "g2", 1), ("sm", "after_transition", 1)))
+    built = cached_build(("exprtail", expr, grp), lambda: m)
+    salt = 0
+    for v in valuations(["s1", "s3", "g2"]):
+        salt += 1
+        tv = typed_vals(v, salt)
+        for driver in DRIVERS:
+            if only_driver and driver != only_driver:
+                continue
+            scj = {"family": "exprtail", "expr": expr, "group": grp, "vals": repr(tv),
+                   "tier": tier, "mask": "tail"}
+            explore_scenario(res, scj, built, driver, [("send", "go", tv, "e1")], None, None,
+                             activate_first=(salt % 2 == 0))
+
+
 def fam_known(tier):
     return [("known", "async-guard-in-expression"),
             ("known", "async-guard-name-on-several-providers"),
@@ -431,7 +464,7 @@ def _fold(res, r2, sig):
 def scenarios(tier):
     sel, ms = fam_select(tier)
     return sel + fam_ring(tier) + fam_listener(tier) + fam_model(tier) + fam_threads(tier) + \
-        fam_known(tier), ms
+        fam_exprtail(tier) + fam_known(tier), ms
 
 
 def worker(block):
@@ -471,6 +504,8 @@ def run_one(res, sc, ms, tier, bound, only_driver=None, only=None):
                                          activate_first=(salt % 2 == 0))
     elif sc[0] == "known":
         run_known(res, sc[1], tier)
+    elif sc[0] == "exprtail":
+        run_exprtail(res, sc[1], sc[2], tier, only_driver)
     elif sc[0] == "threads":
         run_threads(res, sc[1], sc[2])
     elif sc[0] == "model":
@@ -604,6 +639,12 @@ def replay(sc):
     if sc["family"] == "threads":
         run_threads(res, sc["mask"], tuple(sc["history"]))
         return res.violations[0]["message"] if res.violations else None
+    if sc["family"] == "exprtail":
+        run_exprtail(res, sc["expr"], sc["group"], tier, sc.get("driver"))
+        for v in res.violations:
+            if v["scenario"].get("vals") == sc.get("vals"):
+                return v["message"]
+        return None
     if sc["family"] == "model":
         run_one(res, ("model", tuple(sc["order"]), tuple(sc["history"])), ms, tier,
                 2 if tier == "quick" else None)
